@@ -1256,7 +1256,8 @@ Lemma std_get_input s scr args : Inv s -> std n s (get_input specs scr args).
 Proof.
   intros HI. unfold get_input. sstep L; [sstep L|].
   sstep L; [repeat sstep L|]. sstep L; [sstep L|].
-  apply std_new_input_handler; [|assumption]. intros m sx Ix. apply std_handler_get_input; assumption.
+  apply std_new_input_handler; [|assumption]. intros m sx Ix.
+  repeat first [apply std_handler_get_input; assumption|sstep L].     (* the request's arguments are bound first (fix of F15) *)
 Qed.
 
 End Progs.
